@@ -120,7 +120,9 @@ def _exec(sim, op):
         if op.get("drain", True):
             sim.drain()
     elif o == "spawnfault":
-        sim.kernel.spawn_faults.extend(_fault(k) for k in op["kinds"])
+        for k in op["kinds"]:
+            sim.kernel.spawn_faults.append(_fault(k))
+            sim.rec("spawnfault", r=k if k else "ok")
     elif o == "hookset":
         sim.hook_outcomes[(op["w"], op["h"])] = op["o"]
     elif o == "probe":
